@@ -551,11 +551,16 @@ fn pad(r: &mut Rng, ascii_only: bool) -> String {
 
 // ------------------------------------------------------------------ C20
 
-const REL_NAMES: &[&str] = &["Europe/Paris", "EST5EDT", "UTC0", "<+03>-3", "Zone7", "localtime", "posixrules", "a", "Etc/GMT+5", "CET-1CEST,M3.5.0,M10.5.0/3", "Europe", "UTC", " UTC0 ", "AAA3BBB,J10,J200", "a/../Zone7", "Europe//Paris", "x:y", "Zone7/", "0zone", "Zo\u{e9}/\u{fc}", "./UTC0", "ABCDEFGHIJKLMNOPQRSTUVWXYZabcdefghijklmnopqrstuvwxyzABCDEFGHIJKLMNOPQRSTUVWXYZabcdefghijklmnopqrstuvwxyzABCDEFGHIJKLMNOPQRSTUVWXYZabcdefghijklmnopqrstuvwxyzABCDEFGHIJKLMNOPQRSTUVWXYZabcdefghijklmnopqrstuvwxyz0123456789/long", "UTC0:", "EST5:30EDT"];
+const REL_NAMES: &[&str] = &["LOCALTIME", "Localtime", "Europe/Paris", "EST5EDT", "UTC0", "<+03>-3", "Zone7", "localtime", "posixrules", "a", "Etc/GMT+5", "CET-1CEST,M3.5.0,M10.5.0/3", "Europe", "UTC", " UTC0 ", "AAA3BBB,J10,J200", "a/../Zone7", "Europe//Paris", "x:y", "Zone7/", "0zone", "Zo\u{e9}/\u{fc}", "./UTC0", "ABCDEFGHIJKLMNOPQRSTUVWXYZabcdefghijklmnopqrstuvwxyzABCDEFGHIJKLMNOPQRSTUVWXYZabcdefghijklmnopqrstuvwxyzABCDEFGHIJKLMNOPQRSTUVWXYZabcdefghijklmnopqrstuvwxyzABCDEFGHIJKLMNOPQRSTUVWXYZabcdefghijklmnopqrstuvwxyz0123456789/long", "UTC0:", "EST5:30EDT"];
 const ABS_NAMES: &[&str] = &["/abs/zone1", "/etc/localtime", "/usr/share/zoneinfo/Europe/Paris", "/abs/EST5EDT", "/"];
 
 pub fn gen_contents_basic(r: &mut Rng, sc: &mut Scenario, n: usize, allow_invalid: bool) {
     for i in 0..n {
+        if allow_invalid && r.chance(1, 40) {
+            // a large junk file (size limits): must be read, refused as a file, and end the search
+            sc.contents.push(Content::Fill { len: [1usize << 20, (1 << 20) + 1, 65536, 65537, 70000, 3 << 20][r.usize(6)], byte: [0u8, b'T', 0xFF][r.usize(3)] });
+            continue;
+        }
         let c = match r.below(10) {
             0 | 1 => Content::Corpus(r.pick(CORPUS_PICKS).to_string()),
             2 if i > 0 => Content::Typed { base: r.usize(i), kind: r.pick(TYPED_KINDS).to_string(), arg: r.next() % 100_000 },
@@ -592,6 +597,16 @@ fn tz_value(r: &mut Rng, sc: &Scenario) -> TzArg {
             };
             TzArg::Desc { spec, style: r.below(32) as u8, lpad, rpad }
         }
+        14 => {
+            // very long values (path-length limits), exactly around 4096 octets
+            let n = [4095usize, 4096, 4097, 5000, 300, 70000][r.usize(6)];
+            match r.below(3) {
+                0 => TzArg::Lit("A".repeat(n)),
+                1 => TzArg::Lit(format!("/{}", "b".repeat(n))),
+                _ => TzArg::Lit(format!("UTC0{}", " ".repeat(n))),
+            }
+        }
+        15 => TzArg::Lit(["Localtime", "LOCALTIME", "localTime", "LocalTime", ":LOCALTIME", "localtime\0", "LOCALTIME "][r.usize(7)].to_string()),
         12 => TzArg::Lit(["junk", "X", "12345", "\u{A0}UTC0", "UTC0\u{A0}", "  ", "\n", "localtime ", " localtime", " :UTC", "UTC+25", "A/../B"][r.usize(12)].to_string()),
         13 if !sc.files.is_empty() => {
             // some path that exists, verbatim
@@ -1064,8 +1079,14 @@ pub fn gen_c07(seed: u64) -> Scenario {
     }
     // client misuse: constructors with boundary numbers
     for _ in 0..r.usize(8) {
-        let (kind, n) = *r.pick(&[("ltt", 3), ("ltt_off", 1), ("fixed", 1), ("utc_new", 7), ("dt_new", 8), ("utc_ts", 2), ("utc_total", 4), ("dt_ts_local", 3), ("mwd", 3), ("j1", 1), ("j0", 1), ("alt", 16), ("tzref", 22)]);
+        let (kind, n) = *r.pick(&[("ltt", 3), ("ltt_off", 1), ("fixed", 1), ("utc_new", 7), ("dt_new", 8), ("utc_ts", 2), ("utc_total", 4), ("dt_ts_local", 3), ("mwd", 3), ("j1", 1), ("j0", 1), ("alt", 16), ("tzref", 22), ("tzref_many", 10), ("project_x", 4)]);
         let mut args: Vec<i64> = (0..n).map(|_| bnum(&mut r)).collect();
+        if kind == "project_x" {
+            args[0] = r.range(-4_000_000_000, 4_000_000_000);
+            let offs = [i32::MAX as i64, i32::MIN as i64 + 1, 1_500_000_000, -1_500_000_000, 50400, -43200, 0, 1];
+            args[2] = offs[r.usize(8)];
+            args[3] = offs[r.usize(8)];
+        }
         if kind == "alt" && r.chance(3, 4) {
             // plausible rule so that the lookups behind it are reached
             args[0] = *r.pick(&OFFSETS[5..30]) as i64;
@@ -1248,7 +1269,7 @@ pub fn gen_c19(seed: u64) -> Scenario {
             10 => Op::Find { z, f },
             11 => Op::Format { z, t, ns },
             _ => {
-                let (kind, n) = *r.pick(&[("ltt", 3), ("ltt_off", 1), ("utc_new", 7), ("dt_new", 8), ("utc_ts", 2), ("utc_total", 4), ("dt_ts_local", 3), ("mwd", 3), ("j1", 1), ("j0", 1), ("alt", 16), ("tzref", 22)]);
+                let (kind, n) = *r.pick(&[("ltt", 3), ("ltt_off", 1), ("utc_new", 7), ("dt_new", 8), ("utc_ts", 2), ("utc_total", 4), ("dt_ts_local", 3), ("mwd", 3), ("j1", 1), ("j0", 1), ("alt", 16), ("tzref", 22), ("tzref_many", 10), ("project_x", 4)]);
                 let mut args: Vec<i64> = (0..n).map(|_| bnum(&mut r)).collect();
                 if kind == "alt" {
                     args[0] = *r.pick(&OFFSETS[5..30]) as i64;
